@@ -16,7 +16,7 @@
      groupby(k).apply(f)             = group_concat  (groups in ascending key order, each mapped by f)
      sort_values(kind='stable')      = isort_by      (stable insertion sort)
      groupby(k).nth(0)               = rows without an earlier row of the same key, original order
-     DataFrame.squeeze()             = a 1x1 frame becomes a scalar *)
+     DataFrame.squeeze(axis=1)       = the one-column frame becomes a Series (any number of rows) *)
 From Coq Require Import ZArith List Bool Lia.
 Import ListNotations.
 Local Open Scope Z_scope.
@@ -124,12 +124,9 @@ Definition evid_impl (d : dataset) : list (Z * Z) :=
 (* ------------------------------------------------------------------ get_observations / get_doses *)
 Inductive series3 := Series (l : list (Z * Z * Z)) | Scalar (v : Z).
 
-(* df[[id, idv, dv]].set_index([id, idv]).squeeze() *)
-Definition squeeze (l : list (Z * Z * Z)) : series3 :=
-  match l with
-  | [(_, _, v)] => Scalar v
-  | _ => Series l
-  end.
+(* df[[id, idv, dv]].set_index([id, idv]).squeeze(axis=1): always a Series (the Scalar constructor only
+   serves to export a recurrence of the old squeeze() behaviour) *)
+Definition squeeze (l : list (Z * Z * Z)) : series3 := Series l.
 
 Definition obs_rows (s : schema) (rows : list row) : list row :=
   match mdv_col s with
@@ -180,7 +177,7 @@ Fixpoint distinctz (l : list Z) : list Z :=
 (* groupby(id)[covs].nunique().gt(1).any() : positions of the covariate columns that vary *)
 Definition tvc_impl (ncov : nat) (d : dataset) : res (list bool) :=
   match ncov with
-  | O => Err IndexError          (* typeix['covariate'] raises; the `len(cov_labels) == 0` branch is dead *)
+  | O => Ok []                   (* except IndexError: return [] *)
   | _ =>
     Ok (map (fun j => existsb (fun k => Nat.ltb 1 (length (distinctz (map (nth_cov j)
                                        (filter (fun r => r_id r =? k) (ds_rows d))))))
@@ -211,7 +208,7 @@ Definition nonunique (keys : list key3) : list key3 :=
 Definition in_tie (i t : Z) (r : row) : bool := (r_id r =? i) && (r_time r =? t).
 
 (* one iteration of `for i, time, _ in nonunique.index`, seen from row r: 1 if r's DOSEID is
-   decremented in this iteration *)
+   decremented in this iteration provided it has a previous dose period (see doseid_step) *)
 Definition dec_of (s : schema) (rows : list row) (k : key3) (r : row) : Z :=
   let '(i, t, _) := k in
   let G := filter (in_tie i t) rows in                        (* groupind — ignores _RESETGROUP *)
@@ -221,14 +218,17 @@ Definition dec_of (s : schema) (rows : list row) (k : key3) (r : row) : Z :=
   | d0 :: dtl =>
       let maxind := fold_right Z.max (r_lab d0) (map r_lab dtl) in
       if negb (in_tie i t r && (r_amt r =? 0)) then 0          (* for index in obsind *)
-      else if existsb (fun x => r_lab x =? 0) G then 0         (* if 0 in groupind: continue *)
       else if r_lab r <? maxind then 0                          (* if maxind > index: continue *)
       else if has_ss s && existsb (fun x => (r_lab x =? maxind) && (0 <? r_ss x)) rows then 0
       else 1                                                    (* DOSEID -= 1 *)
   end.
 
+(* if df.loc[index, 'DOSEID'] <= 1: continue  -- the CURRENT value, no previous dose period *)
+Definition stepv (s : schema) (rows : list row) (r : row) (v : Z) (k : key3) : Z :=
+  if 1 <? v then v - dec_of s rows k r else v.
+
 Definition doseid_step (s : schema) (rows : list row) (vals : list Z) (k : key3) : list Z :=
-  map (fun rv => snd rv - dec_of s rows k (fst rv)) (combine rows vals).
+  map (fun rv => stepv s rows (fst rv) (snd rv) k) (combine rows vals).
 
 Definition doseid_core (s : schema) (rows : list row) : list Z :=
   fold_left (doseid_step s rows) (nonunique (map key_of (ann s rows)))
@@ -237,7 +237,6 @@ Definition doseid_core (s : schema) (rows : list row) : list Z :=
 Definition doseid_impl (d : dataset) : res (list Z) :=
   let s := ds_sch d in
   if negb (has_dose s) then Err DatasetError
-  else if has_evid s && negb (id_named_ID s) then Err KeyError      (* df.groupby('ID') *)
   else Ok (doseid_core s (ds_rows d)).
 
 (* ------------------------------------------------------------------ expand_additional_doses *)
@@ -291,7 +290,6 @@ Definition expand_core (s : schema) (rows : list row) : list (row * bool) :=
 Definition expand_impl (d : dataset) : res (list (row * bool)) :=
   let s := ds_sch d in
   if negb (has_addl s && has_ii s) then Ok (map (fun r => (r, false)) (ds_rows d))   (* model returned as is *)
-  else if has_evid s && negb (id_named_ID s) then Err KeyError
   else if negb (range_index s) && existsb (fun r => negb (r_addl r =? 0)) (ds_rows d)
        then Err ValueError     (* a row was exploded and the index is an explicit Index: cannot reindex *)
   else Ok (relabel (expand_core s (ds_rows d))).
@@ -404,8 +402,6 @@ Definition admid_impl (mi : minfo) (d : dataset) : res (list (Z * Z)) :=
     | Ok cmt =>
         let remap := dict_of (map (fun c : Z * Z * bool => fst c) (mi_dosing mi)) [] in
         let adm := map (fun lv => zreplace remap (snd lv)) cmt in
-        if negb (id_named_ID s) then Err KeyError           (* model.dataset["ID"] *)
-        else
           match ds_rows d, adm with
           | r0 :: _, a0 :: _ =>
               if negb (r_lab r0 =? 0) then Err KeyError      (* adm[0] : modelled for label 0 on the first row only *)
@@ -582,8 +578,6 @@ Definition g_amt_nonneg (rows : list row) : bool := forallb (fun r => 0 <=? r_am
 Fixpoint labels_from (k : Z) (l : list row) : bool :=
   match l with [] => true | r :: tl => (r_lab r =? k) && labels_from (k + 1) tl end.
 Definition g_labels_range (rows : list row) : bool := labels_from 0 rows.
-(* code: df.groupby('ID') *)
-Definition g_id_named (s : schema) : bool := negb (has_evid s) || id_named_ID s.
 (* input domain: within a reset group of an individual the records are in chronological order *)
 Definition g_chrono (an : list (row * Z)) : bool :=
   forall_ctx (fun rpre x _ => forallb (fun y => negb (a_same x y && (snd x =? snd y)) || (a_time y <=? a_time x)) rpre) an.
@@ -596,39 +590,17 @@ Definition g_no_obs_between_tied_doses (an : list (row * Z)) : bool :=
      negb ((a_amt x =? 0)
            && existsb (fun y => a_tie x y && negb (a_amt y =? 0)) rpre
            && existsb (fun y => a_tie x y && negb (a_amt y =? 0)) post)) an.
-(* code: `if 0 in groupind` — no non-dose record at the time point (and reset group) of its
-   individual's first dose after that dose *)
-Definition first_dose_of (x : row * Z) (rpre : list (row * Z)) : option (row * Z) :=
-  match rev (filter (fun y => a_same x y && (0 <? a_amt y)) rpre) with
-  | [] => None
-  | f :: _ => Some f
-  end.
-Definition g_no_tie_after_first_dose (an : list (row * Z)) : bool :=
-  forall_ctx (fun rpre x _ =>
-     negb ((a_amt x =? 0)
-           && match first_dose_of x rpre with
-              | Some f => a_tie x f && (snd x =? snd f)
-              | None => false
-              end)) an.
-
 Definition guard_doseid (d : dataset) : bool :=
   let s := ds_sch d in
   let an := ann s (ds_rows d) in
-  has_dose s && g_id_named s && g_amt_nonneg (ds_rows d) && g_labels_range (ds_rows d)
-  && g_chrono an && g_tie_one_reset_group an && g_no_obs_between_tied_doses an
-  && g_no_tie_after_first_dose an.
+  has_dose s && g_amt_nonneg (ds_rows d) && g_labels_range (ds_rows d)
+  && g_chrono an && g_tie_one_reset_group an && g_no_obs_between_tied_doses an.
 
 (* EVID: without an EVID column, MDV (when present) says exactly which records are doses *)
 Definition guard_evid (d : dataset) : bool :=
   let s := ds_sch d in
   has_evid s || negb (has_mdv s)
   || forallb (fun r => Bool.eqb (negb (r_mdv r =? 0)) (has_dose s && negb (r_amt r =? 0))) (ds_rows d).
-
-(* squeeze: not exactly one observation / dose record *)
-Definition guard_obs_count (d : dataset) : bool :=
-  negb (Nat.eqb (length (obs_rows (ds_sch d) (ds_rows d))) 1).
-Definition guard_dose_count (d : dataset) : bool :=
-  negb (Nat.eqb (length (filter (fun r => negb (r_amt r =? 0)) (ds_rows d))) 1).
 
 (* nondecreasing keys *)
 Fixpoint sortedz (l : list Z) : bool :=
